@@ -41,7 +41,7 @@ def explore(c, cfgname, timeout=3000):
 def asfound(c, cfgname, expect):
     """The check sequence as found in the code (Cfg.fix all FALSE): TLC must show the design-level
     counterexamples.  Never a verdict; recorded in the notes."""
-    r = c.tlc("RouterStep", "RouterStepMC.%s.cfg" % cfgname, timeout=1500, args=["-continue"])
+    r = c.tlc("RouterStep", "RouterStepMC.%s.cfg" % cfgname, timeout=1500, workers=4)
     seen = sorted(set(r.inv_violated))
     c.notes.append("model of the check sequence as found (%s): TLC violates %s" % (cfgname, seen))
     for inv in expect:
